@@ -240,11 +240,30 @@ def variant(b, lp):
                                         return ("ok", "x += %d" % inc[1]["v"])
                                     return ("bad", "x += 0", F.site_str(b, s3[3]))
                                 o = C08.origin(b, inc)
+                                if max_with_positive_const(b, inc):
+                                    return ("ok", "x += max(y, c) with c >= 1")
                                 if positive_guard(b, lp, inc):
                                     return ("ok", "x += y with y >= 1 guarded")
                                 return ("bad", "loop variable advances by %s, which may be zero" % fmt_origin(o),
                                         F.site_str(b, s3[3]))
     return None
+
+
+def max_with_positive_const(b, op):
+    """operand is the result of `max(y, c)` with a constant c >= 1"""
+    if op[0] not in ("c", "m") or op[1][1]:
+        return False
+    d = single_def(b, op[1][0])
+    seen = 0
+    while d and d[0] == "s" and d[1][2][0] in ("use", "cast") and seen < 6:
+        seen += 1
+        src = d[1][2][1] if d[1][2][0] == "use" else d[1][2][2]
+        if src[0] not in ("c", "m") or src[1][1]:
+            return False
+        d = single_def(b, src[1][0])
+    if d and d[0] == "c" and F.callee_name(d[1]).endswith("::max"):
+        return any(a[0] == "k" and (a[1].get("v") or 0) >= 1 for a in d[1]["args"])
+    return False
 
 
 def fmt_origin(o):
@@ -282,7 +301,8 @@ def resize_copy(ctx):
     inst = "api=mem_resize_section"
     copies = [i for i, x in enumerate(bl) if x["term"]["k"] == "call" and F.callee_name(x["term"]).endswith("::copy_from_slice")]
     zeros = [i for i, x in enumerate(bl) if x["term"]["k"] == "call" and "from_elem" in F.callee_name(x["term"])]
-    mins = [i for i, x in enumerate(bl) if x["term"]["k"] == "call" and F.callee_name(x["term"]).endswith("::min")]
+    mins = [i for i, x in enumerate(bl) if x["term"]["k"] == "call" and F.callee_name(x["term"]).endswith("::min")
+            and all("len_of" in str(C08.origin(b, a)) for a in x["term"]["args"])]
     if len(copies) != 1 or len(zeros) != 1 or len(mins) != 1:
         ck.violation("C10.resize", inst, "anchors: copy_from_slice=%d vec![0;n]=%d min=%d" % (len(copies), len(zeros), len(mins)),
                      where=where, what="resize no longer builds a zero vector and copies the common prefix")
